@@ -672,7 +672,7 @@ func (fr *frame) callFunc(st *State, call *ast.CallExpr, fn *types.Func, recv *V
 	}
 	// interface method: interface contract
 	sig := fn.Type().(*types.Signature)
-	if c := fc.reg.contractFor(fn); c != nil && !c.Inline {
+	if c := fc.reg.contractFor(fn); c != nil && !c.Inline && c.Flags["otherwise"] == "" {
 		return fr.applyContract(st, call, fn, c, recv, args)
 	}
 	if vs, ok := fr.builtinModel(st, call, fn, recv, args); ok {
@@ -1286,16 +1286,37 @@ func (fr *frame) dispatchIface(st *State, call *ast.CallExpr, fn *types.Func, re
 			}
 		}
 	}
+	// an interface contract flagged `otherwise` covers every dynamic type that is not one of the module's own
+	// implementations under contract (open world: no dispatch.closed obligation)
+	var otherwise *FuncContract
+	if c := fc.reg.contractFor(fn); c != nil && c.Flags["otherwise"] != "" {
+		otherwise = c
+	}
 	if len(impls) == 0 {
+		if otherwise != nil {
+			return fr.applyContract(st, call, fn, otherwise, recv, args)
+		}
 		panic(unsupported("interface call " + fn.FullName() + ": no interface contract and no implementation with a contract"))
 	}
 	var conds []*Term
 	for _, im := range impls {
 		conds = append(conds, Eq(recv.Typ, typeTag(im.t)))
 	}
-	fc.oblige(st, fr, "safe", fmt.Sprintf("dispatch.closed@%s#%d", fn.Name(), fr.callOrd[call]), Or(conds...))
+	if otherwise == nil {
+		fc.oblige(st, fr, "safe", fmt.Sprintf("dispatch.closed@%s#%d", fn.Name(), fr.callOrd[call]), Or(conds...))
+	}
 	var outs []*State
 	var results [][]*Value
+	if otherwise != nil {
+		sub := st.clone()
+		sub.assume(Not(Or(conds...)))
+		if !sub.dead {
+			res := fr.applyContract(sub, call, fn, otherwise, recv, args)
+			sub.results = res
+			outs = append(outs, sub)
+			results = append(results, res)
+		}
+	}
 	for i, im := range impls {
 		sub := st.clone()
 		sub.assume(conds[i])
